@@ -133,6 +133,9 @@ func (e *Engine) tryMerge(st *State, fr *Frame, x *ssa.If, c *Term, mT, mF Model
 	if ms := e.mergeStat[x]; ms != nil && ms.fail >= 4 && ms.fail > 8*ms.ok {
 		return false // this branch practically never merges: fork directly
 	}
+	if e.cfg.NoMergeIn[fr.Fn.Name()] {
+		return false
+	}
 	ci := e.cfgOf(fr.Info, fr.Fn)
 	bi := fr.Block.Index
 	j := ci.ipdom[bi]
